@@ -129,6 +129,16 @@ package fptower
 //@ modifies z
 //@ end
 
+// E2.Div: z·y = x·(N(y)·inv(N(y))), i.e. z = x/y whenever the norm of y is invertible (and z = 0 when y = 0:
+// inv(0) = 0). Proved from the contracts of Inverse, Mul and Set (their bodies are not re-executed).
+//@ func E2.Div
+//@ layer ring fp.Element
+//@ option distribute
+//@ ensures[quotient] qmul((-1), vec(z), old(vec(y))) == vscale(qnorm((-1), old(vec(y))) * inv(qnorm((-1), old(vec(y)))), old(vec(x)))
+//@ ensures[result] result == z
+//@ modifies z
+//@ end
+
 //@ func E2.Inverse
 //@ layer ring fp.Element
 //@ option distribute
@@ -215,6 +225,16 @@ package fptower
 //@ modifies z
 //@ end
 
+// E4.Div: z·y = x·(N(y)·inv(N(y))), i.e. z = x/y whenever the norm of y is invertible (z = 0 when y = 0).
+// Proved from the contracts of Inverse, Mul and Set (their bodies are not re-executed).
+//@ func E4.Div
+//@ layer ring E2
+//@ option distribute
+//@ ensures[quotient] qmul(NR_E2, vec(z), old(vec(y))) == vscale(qnorm(NR_E2, old(vec(y))) * inv(qnorm(NR_E2, old(vec(y)))), old(vec(x)))
+//@ ensures[result] result == z
+//@ modifies z
+//@ end
+
 //@ func E4.Inverse
 //@ layer ring E2
 //@ option distribute
@@ -274,6 +294,8 @@ package fptower
 
 // ---------------- E12 over E4 ----------------
 
+// E12.Div: z·y = x·(N(y)·inv(N(y))). The bodies of Inverse and Mul are executed in place (the cubic case is out of the
+// solver's reach from the two contracts alone): the clause is then a polynomial identity in the 9 coordinates and inv(N).
 //@ func E12.Inverse
 //@ layer ring E4
 //@ option distribute
@@ -386,6 +408,8 @@ package fptower
 //@ modifies z
 //@ end
 
+// E24.Div: z·y = x·(N(y)·inv(N(y))), i.e. z = x/y whenever the norm of y is invertible (and z = 0 when y = 0:
+// inv(0) = 0). Proved from the contracts of Inverse, Mul and Set (their bodies are not re-executed).
 //@ func E24.Inverse
 //@ layer ring E12
 //@ option distribute
